@@ -97,17 +97,46 @@ impl RegexMatcher {
             RegexType::PosixExtended => Syntax::posix_extended(),
         };
 
-        let regex = Regex::with_options(
-            pattern,
-            if ignore_case {
-                RegexOptions::REGEX_OPTION_IGNORECASE
-            } else {
-                RegexOptions::REGEX_OPTION_NONE
-            },
-            syntax,
-        )?;
+        let options = if ignore_case {
+            RegexOptions::REGEX_OPTION_IGNORECASE
+        } else {
+            RegexOptions::REGEX_OPTION_NONE
+        };
+        let regex = Regex::with_options(pattern, options, syntax)?;
+
+        // The whole path has to be in the pattern's language. Matching at the start of
+        // the path and comparing lengths is not enough: the engine returns the first
+        // match it finds, so "a\\|ab" stops at "a" and never tries "ab". Anchor the
+        // end of the (grouped) pattern instead, which makes the engine backtrack into
+        // the other alternatives. The extra group would renumber back-references, so
+        // patterns that use them are left as they are.
+        let regex = if has_back_reference(pattern) {
+            regex
+        } else {
+            let (open, close) = match regex_type {
+                RegexType::PosixExtended => ("(", ")"),
+                _ => ("\\(", "\\)"),
+            };
+            Regex::with_options(
+                &format!("{open}{pattern}{close}$"),
+                options | RegexOptions::REGEX_OPTION_SINGLELINE,
+                syntax,
+            )
+            .unwrap_or(regex)
+        };
         Ok(Self { regex })
     }
+}
+
+/// Does the pattern contain a back-reference (an unescaped backslash followed by 1-9)?
+fn has_back_reference(pattern: &str) -> bool {
+    let mut chars = pattern.chars();
+    while let Some(c) = chars.next() {
+        if c == '\\' && chars.next().is_some_and(|n| ('1'..='9').contains(&n)) {
+            return true;
+        }
+    }
+    false
 }
 
 impl Matcher for RegexMatcher {
